@@ -73,7 +73,7 @@ def grid(K, g, negate=False):
 def probe(ev, s, o, h, K, g, qs, negate=False, base_g=None):
     """o = abstract object behind s; g = the concretisation s was built with."""
     t2s, ths = grid(K, base_g or g, negate)
-    e = ev("probe", h=h, t2=t2s, cm=[], rates={}, thr={}, auc=[0, 0], pauc=[0, 0], pauc2=[0, 0],
+    e = ev("probe", h=h, t2=t2s, cm=[], rates={}, thr={}, auc=[0, 0], pauc=[0, 0], pauc2=[0, 0], axes=[],
            eer={"ok": False, "e6": 0, "t4": 0})
     try:
         th = np.array(ths)
@@ -95,6 +95,9 @@ def probe(ev, s, o, h, K, g, qs, negate=False, base_g=None):
             e["auc"] = gamma.proj_rat(s.auc(), 5000, ulps=64)
             e["pauc"] = gamma.proj_rat(s.auc(0.25, 0.75), 20000, ulps=64)
             e["pauc2"] = gamma.proj_rat(s.auc(0.1, 0.6, x_axis="fnr", y_axis="tnr"), 20000, ulps=64)
+            # the full range under the other axis pairs
+            e["axes"] = [gamma.proj_rat(s.auc(x_axis=x_, y_axis=y_), 20000, ulps=64)
+                         for x_, y_ in (("tnr", "tpr"), ("fpr", "fnr"), ("fnr", "fpr"), ("tpr", "fpr"), ("fnr", "tnr"))]
             if lite:
                 return e
             t, ee = s.eer()
